@@ -358,7 +358,7 @@ def _make_simlink_class():
                     if self._fault_event is not None and not self._fault_event.is_set():
                         self._fault_event.set()
                     return None
-                return 'sender'
+                return 'raise' if f['reporter'] == 'raise' else 'sender'
             return None
 
         def send_packet(self, pk):
@@ -376,7 +376,12 @@ def _make_simlink_class():
                 return
             if w.on_send:
                 w.on_send(self, pk)
-            if self._count() == 'sender':
+            verdict = self._count()
+            if verdict == 'raise':
+                # the transport itself fails in the caller's face (broken pipe on a tcp/udp link)
+                w.fault_fired = True
+                raise OSError('injected: broken pipe')
+            if verdict == 'sender':
                 w.fault_fired = True
                 # the library hands such an error to a thread of its own: whether the dispatcher is in the middle of a
                 # dispatch while it is processed is looked at when that processing closes the link (see close())
